@@ -511,7 +511,7 @@ func specMapped(m *mappedFile) bool {
 //@ contract Open
 //@   requires $rd == 0 && $lk == 0
 //@   allows panic#1: documented API misuse: Open and OpenAndRotate must not both be used in one process
-//@   modifies heap, $fsops, $minsize, $now, $weekend, $ledger, $lost
+//@   modifies heap, rotating, defaultFile, $fsops, $minsize, $now, $weekend, $ledger, $lost
 
 // ---------------------------------------------------------------------------
 // C15 / C05: stack counters
